@@ -4,7 +4,7 @@ import random
 import numpy as np
 from common import *
 
-PRELUDE_T = "From MV Require Import Vec Cplx Mat Hop Hopper Propagate Traj R02 RTraj.\n"
+PRELUDE_T = "From MV Require Import Vec Cplx Mat Hop Hopper Propagate Traj Cumulative R02 RTraj.\n"
 SETUPS = [("simple", [-2.0], (6.0, 14.0)), ("dual", [-3.0], (12.0, 30.0)), ("extended", [-3.0], (4.0, 12.0)), ("super", [-3.0], (5.0, 12.0)),
           ("modelx", [-8.5], (8.0, 14.0)), ("vibronic", [0.1, -0.2, 0.15, 0.05, 0.3], None), ("modelw", [-0.6], (15.0, 30.0))]
 
@@ -14,8 +14,9 @@ def elec_lit(e, n, nd):
     return tup(flss(H), lst([lst([fls(tau[i, j]) for j in range(n)]) for i in range(n)]), flss(F))
 
 
-def collect(res, rng, nruns, max_cases):
-    import mudslide
+def collect(res, rng, nruns, max_cases, kind="sh"):
+    """kind: 'sh' TrajectorySH -> caseT; 'eh' Ehrenfest -> caseE; 'cum' TrajectoryCum -> caseC"""
+    import mudslide, copy
     from mudslide.models import scattering_models as M
     cases, meta = [], []
     for it in range(nruns):
@@ -26,15 +27,26 @@ def collect(res, rng, nruns, max_cases):
         dt = rng.choice([5.0, 10.0, 20.0]) if nd == 1 else 2.0
         nsteps = rng.randint(25, 60)
         zl = [rng.choice([2.0, 2.0, rng.random() * 0.05, 10 ** rng.uniform(-6, -2), rng.random()]) for _ in range(nsteps + 5)]
-        tr = mudslide.TrajectorySH(model, x0, p0, rng.randrange(n) if rng.random() < 0.4 else 0, dt=dt, max_steps=nsteps, zeta_list=list(zl),
-                                   hopping_probability="poisson" if pois else "tully", seed_sequence=rng.randrange(2 ** 31))
+        if kind == "cum":
+            pois = False
+            zl = [rng.choice([rng.random() * 0.02, rng.random() * 0.002, rng.random() * 0.3]) for _ in range(rng.choice([1, 30, 30]))]
+        cls = dict(sh=mudslide.TrajectorySH, eh=mudslide.Ehrenfest, cum=mudslide.TrajectoryCum)[kind]
+        kw = dict(hopping_probability="poisson" if pois else "tully") if kind == "sh" else {}
+        a0 = rng.randrange(n) if rng.random() < 0.4 else 0
+        tr = cls(model, x0, p0, a0, dt=dt, max_steps=nsteps, zeta_list=list(zl), seed_sequence=rng.randrange(2 ** 31), **kw)
+        if kind == "eh" and rng.random() < 0.7:
+            # a coherent superposition so that the population-weighted force differs from any single-state force
+            c = np.array([complex(rng.gauss(0, 1), rng.gauss(0, 1)) for _ in range(n)]); c /= np.linalg.norm(c)
+            tr.rho = np.outer(c, c.conj())
         rec = {}
         steps = []
         ap, pe, cs = tr.advance_position, tr.propagate_electronics, tr.continue_simulating
         def advance_position(le, te):
             rec.clear()
             rec.update(before=(tr.position.copy(), tr.velocity.copy(), tr.rho.copy(), int(tr.state), float(tr.time)), e0=te,
-                       zeta=tr.zeta_list[0] if tr.zeta_list else None)
+                       zeta=(tr.zeta_list[0] if tr.zeta_list else None) if kind == "sh" else 0.0)
+            if kind == "cum":
+                rec.update(cum=(float(tr.prob_cum), float(tr.zeta), list(tr.zeta_list), copy.deepcopy(tr.random_state).random(3).tolist()))
             ap(le, te)
         def propagate_electronics(le, te, dt_):
             W = tr.hamiltonian_propagator(le, te); lam, Cm = np.linalg.eigh(W)
@@ -42,29 +54,50 @@ def collect(res, rng, nruns, max_cases):
             pe(le, te, dt_)
         def continue_simulating():
             out = cs()
-            if "e1" in rec and rec.get("zeta") is not None:
+            if "e1" in rec and "before" in rec and rec.get("zeta") is not None:
                 rec["after"] = (tr.position.copy(), tr.velocity.copy(), tr.rho.copy(), int(tr.state), float(tr.time), float(tr.hopping))
+                if kind == "cum":
+                    rec["cum_after"] = (float(tr.prob_cum), float(tr.zeta), list(tr.zeta_list))
                 steps.append(dict(rec)); rec.clear()
             return out
         tr.advance_position, tr.propagate_electronics, tr.continue_simulating = advance_position, propagate_electronics, continue_simulating
         log = tr.simulate()
         picks = sorted(rng.sample(range(len(steps)), min(len(steps), 6)))
         hopsteps = [i for i, s_ in enumerate(steps) if s_["before"][3] != s_["after"][3]]
-        picks = sorted(set(picks + hopsteps[:3]))
+        if kind == "cum":
+            hopsteps += [i for i, s_ in enumerate(steps) if s_["cum"][1] != s_["cum_after"][1]][:4]
+        picks = sorted(set(picks + hopsteps[:5]))
         for i in picks:
             s_ = steps[i]
             (x, v, rho, a, t), (x1, v1, rho1, a1, t1, hop) = s_["before"], s_["after"]
             # knife-edge guard on the threshold: distance of zeta to the partition boundaries of the implementation's own probabilities
             g = 2.0 * np.imag(rho1[a, :] * s_["W"][:, a]) * dt / np.real(rho1[a, a]); g[a] = 0.0; g = np.maximum(g, 0.0)
             cs_ = np.cumsum(g)
-            if cs_[-1] > 0 and np.min(np.abs(cs_ - s_["zeta"])) < 1e-9 * max(cs_[-1], 1e-30):
-                res.knife_edge += 1; continue
-            cases.append(tup(nat(n), fls(model.mass), fl(dt), bl(pois), fl(s_["zeta"]), elec_lit(s_["e0"], n, nd), elec_lit(s_["e1"], n, nd),
-                             fls(s_["lam"]), cxss(s_["C"]), tup(fls(x), fls(v), cxss(rho), nat(a), fl(t)),
-                             tup(fls(x1), fls(v1), cxss(rho1), nat(a1), fl(t1), fl(hop))))
+            common_ = [nat(n), fls(model.mass), fl(dt)]
+            els = [elec_lit(s_["e0"], n, nd), elec_lit(s_["e1"], n, nd), fls(s_["lam"]), cxss(s_["C"]), tup(fls(x), fls(v), cxss(rho), nat(a), fl(t))]
+            if kind == "sh":
+                if cs_[-1] > 0 and np.min(np.abs(cs_ - s_["zeta"])) < 1e-9 * max(cs_[-1], 1e-30):
+                    res.knife_edge += 1; continue
+                cases.append(tup(*(common_ + [bl(pois), fl(s_["zeta"])] + els + [tup(fls(x1), fls(v1), cxss(rho1), nat(a1), fl(t1), fl(hop))])))
+            elif kind == "eh":
+                cases.append(tup(*(common_ + els + [tup(fls(x1), fls(v1), cxss(rho1), nat(a1), fl(t1))])))
+            else:
+                pc, zc, zlc, st = s_["cum"]; pc1, zc1, zlc1 = s_["cum_after"]
+                G = float(np.sum(g)); accn = pc + (pc - 1.0) * np.expm1(-G)
+                if abs(accn - zc) < 1e-9 * max(abs(zc), 1e-30):
+                    res.knife_edge += 1; continue
+                if accn > zc and G > 0:
+                    cdf = np.cumsum(g / G); cdf /= cdf[-1]
+                    if np.min(np.abs(cdf - st[0])) < 1e-9:
+                        res.knife_edge += 1; continue
+                cases.append(tup(*(common_ + els + [tup(fl(pc), fl(zc), fls(zlc), fls(st)),
+                                                    tup(fls(x1), fls(v1), cxss(rho1), nat(a1), fl(t1), fl(hop)), tup(fl(pc1), fl(zc1), fls(zlc1))])))
             meta.append(dict(model=mname, step=i, dt=dt, poisson=pois, zeta=s_["zeta"], hopped=bool(a != a1)))
-            res.count("fullstep/" + ("hop" if a != a1 else "no-hop")); res.count("fullstep-model/" + mname)
-            res.case(("fullstep", mname, it, i), True)
+            tag = dict(sh="fullstep", eh="fullstep-ehrenfest", cum="fullstep-cumulative")[kind]
+            res.count(tag + "/" + ("hop" if a != a1 else "no-hop")); res.count(tag + "-model/" + mname)
+            if kind == "cum" and s_["cum"][1] != s_["cum_after"][1]:
+                res.count(tag + "/attempt")
+            res.case((tag, mname, it, i), True)
             if len(cases) >= max_cases:
                 return cases, meta
     return cases, meta
